@@ -276,6 +276,13 @@ func rangeScenarios(c *CheckRun) []*Scenario {
 		i++
 		sa := probeSpec(b)
 		sb := numKeySpec(b)
+		if b.stem > 0 {
+			// bounds that share the stem, so that the prune test reaches the fan-out node below it
+			if i%2 == 0 {
+				return []int{aSpec(b.stem, 1), cKeyStem(b.stem, 0xff) | 1<<30}
+			}
+			return []int{cKeyStemOnly(b.stem) | 1<<30, aSpec(b.stem, 1)}
+		}
 		if b.big {
 			// one symbolic bound, the other concrete (0x00 / 0xff)
 			if i%2 == 0 {
@@ -372,6 +379,24 @@ func reiterScenarios(c *CheckRun) []*Scenario {
 		i2++
 		return []int{[]int{3, 0, 2, 1, 4, 5}[i2%6], probeSpec(b), cSpec(1, 2)}
 	}, []int{14}, 0, "")...)
+	// two sibling groups with compressed paths and 4-byte collation keys, Range over them, re-iterated after
+	// other read-only calls reused the collation buffer
+	{
+		shaped := 1 << 12 // "k?x?"-shaped collation keys; the thorough tier also runs fully symbolic 4-byte keys
+		for _, fl := range []int{shaped, 0} {
+			if fl == 0 && c.Tier == "quick" {
+				continue
+			}
+			var ops [][2]int
+			for u := 0; u < 4; u++ {
+				ops = append(ops, [2]int{opInsert, cSpec(u, 4) | fl})
+			}
+			b := histB{kind: 14, mask: ckReiter, ops: ops, extra: []int{3, cSpec(4, 4) | fl, cSpec(5, 4) | fl}, label: "coll sibling groups, Range re-iterated"}
+			s := b.scn()
+			s.Harness = "hColl"
+			out = append(out, s)
+		}
+	}
 	base := histFamiliesW(c, false, true)
 	i := 0
 	for _, b := range base {
